@@ -245,8 +245,21 @@ func runCheck(prop, tier, repo string, overlay map[string][]byte, writeEvidence 
 	Discharge(out.obligs, so)
 	Discharge(covers, SolveOpts{TimeoutS: 2, Dir: smtDir, KeepFiles: false})
 	vacuous := 0
+	// a failed obligation is assumed afterwards; when its goal is false on every path (a write the frame
+	// forbids outright) the context behind it is contradictory by construction, not by a tool error
+	explained := map[*Oblig]bool{}
+	for _, res := range out.results {
+		if res.Cover == nil {
+			continue
+		}
+		for _, o := range res.Obligs {
+			if o.Status != "proved" {
+				explained[res.Cover] = true
+			}
+		}
+	}
 	for _, c := range covers {
-		if c.Status == "failed" { // unsat: the context is contradictory
+		if c.Status == "failed" && !explained[c] { // unsat: the context is contradictory
 			vacuous++
 			out.toolErrs = append(out.toolErrs, "vacuous context: "+c.Name)
 		}
